@@ -6,7 +6,8 @@
    accept (wf) and it is classifiable (template identification present, or content that TID 1410 / 1411 do not
    share). *)
 From Coq Require Import String ZArith List Bool.
-From HD Require Import Base.Val C16_Model C16_Proofs C16_Proofs_Acc C16_Proofs_Mixed C16_Proofs_Codes.
+From HD Require Import Base.Val C16_Model C16_Proofs C16_Proofs_Acc C16_Proofs_Mixed C16_Proofs_Codes C16_Proofs_Tree
+  C16_Proofs_E2E.
 Import ListNotations.
 Open Scope Z_scope.
 
@@ -214,3 +215,139 @@ Theorem C16_run_queries_exact : forall pre gs f, no_im pre = true -> Forall good
       VL (map (fun g => VZ (g_tid g)) (filter (fun g => kind_eqb (g_kind g) ImageK && sat_image f g) gs))].
 Proof. exact run_queries_exact. Qed.
 Print Assumptions C16_run_queries_exact.
+
+(* ==== the property sentence as one statement ======================================================================
+   `query k` is the query of kind k, `qcheck k f` its argument check, `satk k` = sat (ROI queries) / sat_image;
+   `spec_acc k g mname ename` is what every accessor the correspondence run observes (tracking uid / identifier,
+   finding type / category, method, sites, measurements and evaluations with and without name, reference type,
+   roi, referenced segmentation frame / segment with sources, source images) must show for a group constructed as
+   the RECORD g.  The answer is exactly the groups of kind k satisfying every filter, in document order, and every
+   returned group reports what it was constructed with. *)
+Theorem C16_end_to_end : forall k pre gs f mname ename,
+  no_im pre = true -> Forall good gs -> qcheck k f = Ok tt ->
+  let answer := filter (fun g => kind_eqb (g_kind g) k && satk k f g) gs in
+  query k (report pre gs) f = Ok (map build answer) /\
+  map (fun it => acc_val k it mname ename) (map build answer) = map (fun g => spec_acc k g mname ename) answer.
+Proof. exact end_to_end. Qed.
+Print Assumptions C16_end_to_end.
+
+Theorem C16_end_to_end_mixed : forall k pre xs post f mname ename,
+  no_im pre = true -> others_ok xs = true -> Forall good (groups_of xs) -> qcheck k f = Ok tt ->
+  let answer := filter (fun g => kind_eqb (g_kind g) k && satk k f g) (groups_of xs) in
+  query k (report_mixed pre xs post) f = Ok (map build answer) /\
+  map (fun it => acc_val k it mname ename) (map build answer) = map (fun g => spec_acc k g mname ename) answer.
+Proof. exact end_to_end_mixed. Qed.
+Print Assumptions C16_end_to_end_mixed.
+
+(* the accessor observation of the correspondence run is the record-level specification *)
+Theorem C16_run_accessors_exact : forall pre gs mname ename, no_im pre = true -> Forall good gs ->
+  run_accessors pre gs mname ename =
+  VL (map (fun k => VL (map (fun g => spec_acc k g mname ename) (filter (fun g => kind_eqb (g_kind g) k) gs)))
+          [Planar; Volumetric; ImageK]).
+Proof. exact run_accessors_exact. Qed.
+Print Assumptions C16_run_accessors_exact.
+
+(* ==== ANY content tree (third-party / malformed reports): no hypothesis on `root` =================================
+   is_group g = CONTAINER named Measurement Group; of_kind k g = template identification says k, or (no template
+   identification) the ROI content says k; ref_test k f g = the reference-type / graphic-type / referenced-UID
+   filters of query k on g; passes (gtest k f) g = the per-group test of query k answers True. *)
+(* group discovery: CONTAINERs named Measurement Group among the children of the FIRST Imaging Measurements
+   container, in document order *)
+Theorem C16_any_tree_groups : forall root,
+  find_measurement_groups root =
+  match filter is_im (kids root) with
+  | [] => []
+  | im :: _ => filter (fun i => (nm i =? cMeasurementGroup) && vt_eqb (vt i) CONTAINER) (kids im)
+  end.
+Proof. exact found_groups_spec. Qed.
+Print Assumptions C16_any_tree_groups.
+
+(* whenever a query answers: document order + soundness (kind and every filter) + completeness *)
+Theorem C16_any_tree_exact : forall k root f l, query k root f = Ok l ->
+  l = filter (passes (gtest k f)) (find_measurement_groups root) /\
+  (forall g, In g l -> is_group g /\ of_kind k g = true /\ common_matches f g = true /\ ref_test k f g = Ok true) /\
+  (forall g, In g (find_measurement_groups root) ->
+     of_kind k g = true -> common_matches f g = true -> ref_test k f g = Ok true -> In g l).
+Proof. exact any_tree_exact. Qed.
+Print Assumptions C16_any_tree_exact.
+
+(* the unfiltered queries never raise and classify *)
+Theorem C16_any_tree_unfiltered : forall k root,
+  query k root nofilt = Ok (filter (of_kind k) (find_measurement_groups root)).
+Proof. exact any_tree_unfiltered. Qed.
+Print Assumptions C16_any_tree_unfiltered.
+
+(* filters only remove groups *)
+Theorem C16_any_tree_monotone : forall k root f l, query k root f = Ok l ->
+  exists l0, query k root nofilt = Ok l0 /\ l = filter (passes (gtest k f)) l0.
+Proof. exact any_tree_monotone. Qed.
+Print Assumptions C16_any_tree_monotone.
+
+(* never a group of another kind: answers of different queries share no group, except an UNTYPED group
+   returned by both ROI queries (TID 1410 / 1411 overlap, cf. C16_unclassifiable_refuted) *)
+Theorem C16_any_tree_disjoint : forall root f1 f2 l1 l2 k1 k2,
+  query k1 root f1 = Ok l1 -> query k2 root f2 = Ok l2 ->
+  forall g, In g l1 -> In g l2 -> k1 = k2 \/ (tmpl g = None /\ k1 <> ImageK /\ k2 <> ImageK).
+Proof. exact any_tree_disjoint. Qed.
+Print Assumptions C16_any_tree_disjoint.
+
+(* which errors: the argument refusal, or RuntimeError - only a ROI query with a reference filter, at a group
+   of its kind whose ROI reference is malformed; the image query never raises *)
+Theorem C16_any_tree_errors : forall k root f e, query k root f = Err e ->
+  qcheck k f = Err e \/
+  (qcheck k f = Ok tt /\ e = "RuntimeError"%string /\ k <> ImageK /\
+   (isSome (f_reftype f) || gt_given f || uid_given f = true) /\
+   exists g, In g (find_measurement_groups root) /\ of_kind k g = true /\ ref_test k f g = Err e).
+Proof. exact any_tree_errors. Qed.
+Print Assumptions C16_any_tree_errors.
+
+Theorem C16_image_query_total : forall root f, exists l, get_image root f = Ok l.
+Proof. exact image_query_total. Qed.
+Print Assumptions C16_image_query_total.
+
+(* the reference loop of _get_roi_reference_items in closed form, for ANY group: all candidate items (CONTAINS,
+   allowed name, value type expected for that name) in document order; refused when there is none, when two
+   differ in name, or when there are several of a name other than Image Region / Volume Surface *)
+Theorem C16_roi_reference_loop : forall g allowed,
+  get_roi_reference_items g allowed =
+  match cands allowed g with
+  | [] => Err "RuntimeError"%string
+  | c :: rest => if refs_ok (nm c) rest then Ok (nm c, c :: rest) else Err "RuntimeError"%string
+  end.
+Proof. exact roi_reference_spec. Qed.
+Print Assumptions C16_roi_reference_loop.
+
+Theorem C16_planar_reference_item : forall g,
+  get_planar_ref_item g = match cands allowed_planar g with [c] => Ok (nm c, c) | _ => Err "RuntimeError"%string end.
+Proof. exact planar_reference_spec. Qed.
+Print Assumptions C16_planar_reference_item.
+
+Theorem C16_ref_test_raises_iff : forall k f g, isSome (f_reftype f) || gt_given f || uid_given f = true ->
+  ((exists e, ref_test k f g = Err e) <-> refs_malformed k g = true).
+Proof. exact ref_test_raises_iff. Qed.
+Print Assumptions C16_ref_test_raises_iff.
+
+Example C16_any_tree_nonvacuous :
+  positions (query Planar damaged_root nofilt) = VL [VZ 1000; VZ 1001] /\
+  positions (query Volumetric damaged_root nofilt) = VL [] /\
+  positions (query ImageK damaged_root nofilt) = VL [VZ 1002] /\
+  query Planar damaged_root (Filt None None None (Some cRefSegFrame) GNone None None) = Err "RuntimeError"%string /\
+  positions (query Planar damaged_root (Filt None None None None GNone None None)) = VL [VZ 1000; VZ 1001] /\
+  positions (query ImageK damaged_root (Filt None None None None GNone (Some 3) None)) = VL [VZ 1002].
+Proof. exact any_tree_nonvacuous. Qed.
+Print Assumptions C16_any_tree_nonvacuous.
+
+(* ==== refusals characterised: a filter combination is refused EXACTLY when it can apply to no reference kind of
+   the query (strengthens C16_incompatible_filters_refused to an equivalence) - with one exception, which is real:
+   the planar query refuses graphic type 3D POLYLINE although a planar group on such a region can be built ==== *)
+Theorem C16_refusals_characterised : forall f, gfilter_in_enum (f_gt f) = true ->
+  ((exists e, check_planar f = Err e) <-> (can_apply Planar f = false \/ f_gt f = G3 3)) /\
+  ((exists e, check_volumetric f = Err e) <-> can_apply Volumetric f = false).
+Proof. exact refusals_characterised. Qed.
+Print Assumptions C16_refusals_characterised.
+
+Theorem C16_planar_polyline3d_overstrict :
+  good polyline3d_group /\ can_apply Planar polyline3d_filter = true /\ sat polyline3d_filter polyline3d_group = true /\
+  get_planar (report [] [polyline3d_group]) polyline3d_filter = Err "ValueError"%string.
+Proof. exact planar_polyline3d_overstrict. Qed.
+Print Assumptions C16_planar_polyline3d_overstrict.
